@@ -59,7 +59,7 @@ def st_case(draw):
         spec = draw(zp.st_z2x2(delta_range=(0.04, 0.13)))
         nf = 2
     else:
-        spec = draw(zp.st_cubic1(delta_range=(0.1, 0.5), min_alpha=2e-3))
+        spec = draw(zp.st_cubic1_margin(min_alpha=2e-3))
         nf = 1
     spec = zp.with_guess(spec, draw(zp.st_guess()))
     kind = draw(st.sampled_from(["perm", "refl", "trans", "mixed", "mixed"]))
